@@ -140,7 +140,8 @@ macro "sim_step" : tactic => `(tactic| first
   | with_reducible apply Sim.discard
   | with_reducible apply Sim.bind
   | with_reducible intro _
-  | split)
+  | split
+  | dsimp only)
 
 macro "sim" : tactic => `(tactic| repeat' sim_step)
 
